@@ -24,6 +24,8 @@ func exists(lo, hi int, p func(i int) bool) bool { return true }
 func all[T any](p func(x T) bool) bool { return true }
 func sameblock[T any](a, b []T) bool { return true }
 func sameorigin[T any](a, b []T) bool { return true }
+func sliceoff[T any](a []T) int { return 0 }
+func sameblock2[T any, U any](a []T, b []U) bool { return true }
 func oldelem[T any](s []T, i int) T { var z T; return z }
 func implies(a, b bool) bool { return true }
 func iff(a, b bool) bool { return true }
@@ -146,6 +148,15 @@ func (e *Engine) synth(pkgPath string) *synthPkg {
 	for _, k := range names {
 		p := e.db.Preds[k]
 		if p.PkgPath != pkgPath {
+			// predicates of imported packages are visible as <pkgname>_<pred>
+			if e.imports(pkgPath, p.PkgPath) {
+				osp := e.synth(p.PkgPath)
+				if o := osp.pkg.Scope().Lookup(p.Name); o != nil {
+					if f, ok := o.(*types.Func); ok {
+						sc.Insert(types.NewFunc(token.NoPos, sp.pkg, osp.real.Name()+"_"+p.Name, f.Type().(*types.Signature)))
+					}
+				}
+			}
 			continue
 		}
 		rt := p.Result
@@ -709,6 +720,14 @@ func (c *EvalCtx) call(n *ast.CallExpr) (string, types.Type) {
 	if fobj != nil && fobj.Pkg() != nil && fobj.Pkg().Name() == "ghost" && fobj.Pkg().Path() == "ghost" {
 		return c.ghostCall(fname, n, rt)
 	}
+	// predicates of imported packages: <pkgname>_<pred>
+	if i := strings.Index(fname, "_"); i > 0 && fobj != nil && fobj.Pkg() == c.x.eng.synth(c.pkgPath).pkg {
+		for _, p := range c.x.eng.db.Preds {
+			if p.PkgPath != c.pkgPath && p.Name == fname[i+1:] && c.x.eng.imports(c.pkgPath, p.PkgPath) && c.x.eng.typesPkg(p.PkgPath).Name() == fname[:i] {
+				return c.predCall(p, fobj.Type().(*types.Signature), n), rt
+			}
+		}
+	}
 	// predicates and UFs of this package
 	if p, ok := c.x.eng.db.Preds[c.pkgPath+" "+fname]; ok && fobj != nil && fobj.Pkg() == c.x.eng.synth(c.pkgPath).pkg {
 		return c.predCall(p, fobj.Type().(*types.Signature), n), rt
@@ -848,6 +867,9 @@ func (c *EvalCtx) ghostCall(name string, n *ast.CallExpr, rt types.Type) (string
 		f := c.funcValue(n.Args[0])
 		k, _ := c.expr(n.Args[1])
 		return fmt.Sprintf("(psum %s %s)", f, k), rt
+	case "sliceoff":
+		a, _ := c.expr(n.Args[0])
+		return fmt.Sprintf("(s-off %s)", a), rt
 	case "sameorigin":
 		a, _ := c.expr(n.Args[0])
 		b, _ := c.expr(n.Args[1])
@@ -862,6 +884,10 @@ func (c *EvalCtx) ghostCall(name string, n *ast.CallExpr, rt types.Type) (string
 		et := slt.Underlying().(*types.Slice).Elem()
 		k := vc.heapKey("E", et)
 		return fmt.Sprintf("(select (select %s (s-arr %s)) (eidx (s-off %s) %s))", vc.heapGet(c.old, k), sl, sl, i), et
+	case "sameblock2":
+		a, _ := c.expr(n.Args[0])
+		b, _ := c.expr(n.Args[1])
+		return fmt.Sprintf("(= (s-arr %s) (s-arr %s))", a, b), rt
 	case "sameblock":
 		a, _ := c.expr(n.Args[0])
 		b, _ := c.expr(n.Args[1])
